@@ -24,6 +24,8 @@ val add : nat -> nat -> nat
 
 val sub : nat -> nat -> nat
 
+val eqb : bool -> bool -> bool
+
 module Nat :
  sig
   val eqb : nat -> nat -> bool
@@ -272,6 +274,8 @@ val z_to_u : n -> z -> n
 val u_to_z : n -> n -> n -> z
 
 val overwrite : bytes -> nat -> bytes -> bytes
+
+val beq_bytes : bytes -> bytes -> bool
 
 val all_zero : bytes -> bool
 
@@ -587,10 +591,73 @@ val run_ops : nat -> sst -> str list -> str list -> str list
 
 val run_seg : str list -> str
 
+val rs_magic : n
+
+val rs_version : n
+
+val rs_t_invalid : n
+
+val rs_t_entry : n
+
+val rs_t_index : n
+
+val rs_t_commit : n
+
+val rs_max_entry : n
+
+val rs_header_len : n
+
+type rs_header = { h_base : n; h_id : n; h_codec : n }
+
+val rs_pad : n -> n
+
+val rs_frame : n -> bytes -> bytes
+
+val rs_frame_size : n -> n
+
+type rs_batch = bytes list * bool
+
+val rs_entries : bytes list -> bytes
+
+val rs_index_start_from : n -> rs_batch list -> n
+
+val rs_index_start : rs_batch list -> n
+
+val rs_slice : bytes -> n -> n -> bytes
+
+type rs_pst = { p_cur : bytes list; p_seal : bool; p_offs : n list;
+                p_start : n; p_done : rs_batch list }
+
+val rs_finish : rs_pst -> rs_batch list option
+
+val rs_pad_ok : bytes -> n -> n -> bool
+
+val rs_parse_frames : nat -> bytes -> n -> rs_pst -> rs_batch list option
+
+val rs_parse_header : bytes -> rs_header option
+
+val parse : bytes -> (rs_header * rs_batch list) option
+
+val s_empty : str
+
+val s_bad_parse : str
+
+val s_bad_hdr : str
+
+val s_bad_seal : str
+
+val s_bad_index : str
+
+val pad8 : bytes -> bytes
+
+val run_rdm : str list -> str
+
 val k_enc : str
 
 val k_dec : str
 
 val k_seg : str
+
+val k_rdm : str
 
 val run_line : str -> str
